@@ -211,6 +211,10 @@ func (x *executor) step(m *machine, fr *frame, in ssa.Instruction) {
 		x.endPath()
 	case *ssa.MakeMap:
 		fr.env[in] = x.makeMap(m, fr, in)
+	case *ssa.MakeChan:
+		// a channel is an opaque fresh reference; send, receive, close and select are not modelled (unsupported)
+		x.val(m, fr, in.Size)
+		fr.env[in] = Val{t: x.c.freshRef(m.st), typ: in.Type()}
 	case *ssa.MapUpdate:
 		x.mapUpdate(m, fr, in)
 	case *ssa.Lookup:
